@@ -50,6 +50,10 @@ func (vc *VC) Run() {
 			o.Expect = "sat"
 		}
 		vc.tokEntry(st)
+		if vc.fc.Flags["bounded-recursion"] && vc.fc.Measure == nil {
+			// the function takes part in a recursion (stated by the flag) and nothing bounds its depth
+			vc.oblige("recursion", "depth-bounded-by-a-measure", "false", fn.Pos())
+		}
 		{
 			// nothing has been waited for when the function starts
 			vc.heapKeySort("#waited", types.Typ[types.Bool])
